@@ -51,7 +51,7 @@ def run(ctx):
         for op, onm in ((0, 'insert'), (1, 'find'), (2, 'clear'), (4, 'ctor')) + (((3, 'insert_range'),) if st == 1 else ()):
             hs.append(Harness('C12_set_%s_%s' % (nm, onm), S, defines=defs + T + ['SET=%d' % st, 'OP=%d' % op, 'NS=%d' % ns], unwind=(ns + 2 if op in (1, 2) else 2 * ns + 4), unwindset=['x__Znam.0:%d' % (2 * ns + 5), 'memcpy.0:%d' % (2 * ns + 4), 'memmove.0:%d' % (2 * ns + 4), 'memmove.1:%d' % (2 * ns + 4)], timeout=900 if not thorough else 2400, functions=fn, stubs=[NEWSTUB, MEMSTUB],
                               bounds='any state with size <= reserved size <= %d, reserved size >= 1, strictly ascending keys (all 16-bit values), reserve percentage 0..100, array allocated or (empty set) still deferred; any key' % ns,
-                              desc='one step from any state satisfying the representation invariant'))
+                              desc='one step from any state satisfying the representation invariant', tier='thorough' if op == 3 else 'quick'))
     hs.append(Harness('C12_hash_array', VERIF + '/harness/C12_hash.c', defines=defs + T + ['NT=%d' % (4 if not thorough else 8), 'TAGMAX=%d' % (32 if not thorough else 64)], unwind=10, unwindset=['x__Znam.0:%d' % (34 if not thorough else 66), 'x__Znam.1:20', 'memcpy.0:%d' % (10 if not thorough else 18), 'memset.0:%d' % (34 if not thorough else 66)], timeout=900 if not thorough else 2400, functions=PSF, stubs=[NEWSTUB, MEMSTUB],
                       bounds='any strictly ascending trait table of 1 <= n <= %d tags below %d, every key 0..65535, arbitrary previous contents of the set object' % (4 if not thorough else 8, 32 if not thorough else 64),
                       desc='hash array contents, lookups through it, constructed state, copy'))
